@@ -404,8 +404,16 @@ static int dispatch(TcpAsyncCtx *tcpCtx) {
 		}
 
 		if (req->state != KSI_ASYNC_STATE_WAITING_FOR_DISPATCH) {
+			bool partiallySent = (req->sentCount > 0);
 			/* The state could have been changed in application layer. Just remove the request from the request queue. */
 			KSI_AsyncHandleList_remove(tcpCtx->reqQueue, 0, NULL);
+			if (partiallySent) {
+				/* A part of this request is already on the wire: the byte stream can not be continued with
+				 * another request, the connection has to be dropped. */
+				closeSocket(tcpCtx, __LINE__);
+				res = KSI_ASYNC_CONNECTION_CLOSED;
+				goto cleanup;
+			}
 			continue;
 		}
 
